@@ -208,12 +208,11 @@ Definition hist_nontrivial (c : histcase) : bool :=
   existsb (fun s => existsb (fun n => String.eqb (key_from_file_name (ni_name n)) (key_from_file_name (ni_name (st_in s)))) (hc_notes c))
           (hc_steps c).
 
-(* known-finding class 2 (F-ITEMLEAD): some text of the history has a list item that starts with
-   a list and holds further blocks (or starts with a code block, quote, table or rule) *)
-Definition note_plain (n : note_in) : bool :=
-  match ni_blocks n with Ok bs => forallb plain_items bs | Panic _ => true end.
-Definition hist_classes (c : histcase) : list N :=
-  flag 2 (forallb note_plain (hc_notes c) && forallb (fun s => note_plain (st_in s)) (hc_steps c)).
+(* (formerly known-finding class 2, F-ITEMLEAD, repaired: a list item that starts with a list and
+   holds further blocks, or starts with a code block, quote, table or rule, is one section without
+   text over all its blocks; the arena stays a forest on every history - HistoryClosed.v - so no
+   class is left and every failure on such a history is a violation) *)
+Definition hist_classes (c : histcase) : list N := [].
 
 Definition run_C20 (c : histcase) : verdict :=
   V (hist_corr c) (hist_wf c) (hist_classes c) (hist_nontrivial c).
@@ -246,11 +245,10 @@ Definition step_c04 (s : step) : list N :=
 
 Definition hist_c04 (c : histcase) : list N := dedup_stages (flat_map step_c04 (hc_steps c)).
 
-(* the index and path models are compared on histories whose arenas are forests; on the
-   F-ITEMLEAD class the implementation's arena holds orphans (C20) and its answers about them are
-   not modelled *)
+(* the index and path models are compared on every history (the arenas are forests on all of
+   them since the repair of F-ITEMLEAD) *)
 Definition run_C04 (c : histcase) : verdict :=
-  V (dedup_stages (hist_corr c ++ match hist_classes c with [] => hist_index_corr c | _ => [] end)) (hist_c04 c) (hist_classes c) (hist_nontrivial c).
+  V (dedup_stages (hist_corr c ++ hist_index_corr c)) (hist_c04 c) (hist_classes c) (hist_nontrivial c).
 
 Definition run_HIST (c : histcase) : verdict :=
   V (hist_corr c) (hist_c04 c ++ map (fun x => (10 + x)%N) (hist_wf c)) (hist_classes c) (hist_nontrivial c).
